@@ -52,7 +52,7 @@ InitFrom(e) ==
   /\ loop = LoopInit
   /\ out = [ev |-> "Init"]
   /\ touched = FALSE
-  /\ zeros = 0
+  /\ zeros = 0 /\ spin = 0
   /\ H4Init
 
 TraceInit ==
@@ -67,7 +67,7 @@ Note(ok) == IF ok \/ Len(drift) >= 5 THEN drift ELSE Append(drift, l)
 StepInit(e) ==
   /\ cfg' = CfgOf(e) /\ fanMin' = e.gmin /\ offset' = 0 /\ last' = Nil /\ pwm' = e.pwm
   /\ mode' = e.mode /\ avg' = AvgOf(e.avgm) /\ unexpected' = 0 /\ status' = "Regulating"
-  /\ loop' = LoopInit /\ out' = [ev |-> "Init"] /\ touched' = FALSE /\ zeros' = 0
+  /\ loop' = LoopInit /\ out' = [ev |-> "Init"] /\ touched' = FALSE /\ zeros' = 0 /\ spin' = 0
   /\ ccv' = Nil /\ kc' = 0 /\ prevReq' = Nil
   /\ drift' = drift
 
@@ -134,7 +134,7 @@ StepRpm(e) ==
 StepSetAvg(e) ==
   /\ avg' = AvgOf(e.avgm2)
   /\ out' = [ev |-> "Rpm", r |-> 0, ok |-> TRUE]
-  /\ touched' = touched /\ zeros' = 0 /\ H4Keep
+  /\ touched' = touched /\ zeros' = 0 /\ spin' = 0 /\ H4Keep
   /\ UNCHANGED <<cfg, fanMin, offset, last, pwm, mode, unexpected, status, loop>>
   /\ drift' = drift
 
